@@ -129,6 +129,14 @@ Qed.
 Corollary enumerate_read_only c : spec_enumerate_write (fun _ (v : A) => v) c = c.
 Proof. rewrite (enumerate_write_through (fun v => v)). apply map_id. Qed.
 
+(* ---------------- the post-increment form is the same loop *)
+Theorem e_loop_post_same fuel : forall f c b e visits,
+  e_loop_post A fuel f c b e visits = e_loop A fuel f c b e visits.
+Proof.
+  induction fuel as [|fuel IH]; intros f c b e visits; [reflexivity|].
+  simpl. destruct (e_ne b e); [|reflexivity]. destruct (e_deref A c b) as [[i v]|]; [apply IH | reflexivity].
+Qed.
+
 (* ---------------- the same adaptor used again: same visits *)
 Theorem enumerate_twice_spec c : enumerate_twice A c = Done (spec_enumerate c, spec_enumerate c).
 Proof.
